@@ -158,6 +158,9 @@ func galVal(v reflect.Value, multiMap *bool) string {
 			f := t.Field(i)
 			parts[i] = "(FI " + gal.Str(f.Name) + " " + galTags(f.Tag) + " " + gal.Bool(f.Type == timeType) + ", " + galVal(v.Field(i), multiMap) + ")"
 		}
+		if id := typeID(t); id != t.String() {
+			return "(VStruct (SI3 " + gal.Str(t.Name()) + " " + gal.Str(t.String()) + " " + gal.Str(id) + ") " + gal.List(parts) + ")"
+		}
 		return "(VStruct (SI " + gal.Str(t.Name()) + " " + gal.Str(t.String()) + ") " + gal.List(parts) + ")"
 	case reflect.Interface:
 		if v.IsNil() {
@@ -279,6 +282,15 @@ func galFnRegs(m map[string]string) string {
 	return gal.List(parts)
 }
 
+// typeID: the identity of a struct type as the library sees it (reflect.Type): package path and name for a named
+// type outside package main, otherwise what String() prints (unique for the types this harness builds)
+func typeID(t reflect.Type) string {
+	if t.Name() != "" && t.PkgPath() != "" && t.PkgPath() != "main" {
+		return t.PkgPath() + "." + t.Name()
+	}
+	return t.String()
+}
+
 func (w *walkCall) galCfg() string {
 	tag := w.Tag
 	if tag == "" {
@@ -290,7 +302,7 @@ func (w *walkCall) galCfg() string {
 		for ty.Kind() == reflect.Ptr {
 			ty = ty.Elem()
 		}
-		typed = append(typed, "("+gal.Str(ty.String())+", "+galRM(t.Rule)+")")
+		typed = append(typed, "("+gal.Str(typeID(ty))+", "+galRM(t.Rule)+")")
 	}
 	unsc := "None"
 	if w.HasUnsc {
